@@ -124,6 +124,14 @@ func init() {
 	props["C18"].quickS, props["C18"].thoroughS = 30, 600
 	props["C19"] = simProp("whole-engine runs in which 1..3 application tasks issue Validate, CountConnections, Dup, DupListener (right and wrong address), Register (address: the framework dials; connection: enroll; neither), Stop with live, already-cancelled and expiring contexts, at arbitrary moments: on the zero Engine value before boot, while the engine is being assembled, running, during a shutdown started elsewhere (any source, any step) and after Run returned; reference model {never-started, booting, running, stopping, stopped}: exact answers (errors by identity, -1 counts) outside the stopping window, inside it a call must return and must not succeed with a meaningless result; Stop returns nil only after OnShutdown, every OnClose and the release of listener/epoll/eventfd descriptors, returns ctx.Err() when the context ends first while the shutdown still completes (C06 monitor); every accepted Register/Enroll delivers exactly one result; descriptors handed out by Dup stay open; non-trivial = at least one control call;"+sig,
 		"control-calls", "control-calls-in-window", "register-calls", "register-succeeded", "dup-handed-out")
+	props["C14"] = simProp("whole-engine runs with many short-lived connections (3..40, closes in every order, descriptor numbers re-registered immediately, canaries): inside every callback, on the loop's own task, a read-only export of that loop's registry (count, iteration, lookup of every descriptor number the run has used) must equal the harness's set of live connections of that loop; default and gc_opt (compacting matrix) builds; plus the registry driven alone through seeded histories (add/remove first,middle,last/lookup/iterate/full iterate-and-remove drain/re-registration; a few populations beyond one 65536-entry row in the thorough tier) against a plain map; non-trivial = snapshots taken and at least one removal;"+sig,
+		"registry-snapshots", "fd-number-reused")
+	props["C14"].variantsQ = []string{"default", "gc_opt"}
+	props["C14"].extra = []*propCfg{{engine: "vreg", instrumented: true, variantsQ: []string{"default", "gc_opt"}, variantsT: []string{"default", "gc_opt"}}}
+	props["C15"] = simProp("whole-engine runs in reactor mode with 1..8 loops (16/64/256 in a few thorough runs), 3..40 connections opening and closing so that the vector of per-loop counts keeps changing, peers re-using source addresses (IPv4, IPv6 with zones, unix = empty name); round-robin: the i-th and (i+N)-th accepted connections share a loop and N consecutive ones are pairwise distinct; least-connections (connects serialised, atomics not scheduling points so that the balancer's scan is atomic with accept4): the chosen loop's live count at accept time is minimal; source-address hash: equal RemoteAddr strings are served by one loop; never more loops than configured; the loop is identified by the task that runs the callbacks (C05 ties descriptor I/O to it); non-trivial = an accept sequence or a least-connections decision was checked with at least two connections;"+sig,
+		"lb-sequences-checked", "lc-checks")
+	props["C17"] = simProp("whole-engine runs in which the simulated kernel fabricates peer addresses for accept4 (IPv4, IPv6 loopback, link-local IPv6 with zone ids of existing and non-existing interfaces, unix) and listeners bound to zoned addresses; at every callback of every connection RemoteAddr must equal the peer address as the kernel knows it (IP, port, zone name) and LocalAddr the listener's bound address, for the whole life of the connection while other connections open and close and recycle zone strings through the pool; non-trivial = at least two address checks;"+sig,
+		"address-checks")
 	props["C07"] = simProp("same runs as C04/C06; oracle = the simulated kernel's ledger: any framework call on a closed or foreign descriptor number is a violation at that step (canaries grab freed numbers at once), every framework-created descriptor closed exactly once by the time Run returns, unix-socket file removed; non-trivial = a descriptor number was re-used or a connection closed;"+sig,
 		"fd-number-reused", "canary-grabbed")
 }
